@@ -269,6 +269,8 @@ def execute(case: dict[str, Any]) -> dict[str, Any]:
                         op[1] = item[0]
                         node = run.node_of(item[0])
                         cmd = run.engine.tracking.get_command(item[0])
+                        record = run.engine.tracking.get_record_by_instance_id(item[0])
+                        rec["invocations"] = 0 if record is None else len({st.instance_id for st in record.states})
                         rec.update(item=item, node_cls=type(node).__name__ if node is not None else None,
                                    has_cmd=cmd is not None,
                                    cmd_serial=next((i for i, c in enumerate(run._cmds) if c is cmd), None),
@@ -439,7 +441,9 @@ def oracle_c12(case: dict[str, Any], res: dict[str, Any]) -> list[tuple[str, str
         what = f"{op} of {item[1]!r} ({cls}, state {item[2]}, cancellable={item[3]}, forcible={item[4]}) before tick {t + 1}"
         if not offered:
             if r["result"] == "ok":
-                out.append((f"unoffered-{op}-accepted:{site}", what + " was accepted"))
+                # a node that runs several times (Alarm body) has one set of node flags but one item per invocation
+                rep = ":repeated-node" if r.get("invocations", 1) > 1 else ""
+                out.append((f"unoffered-{op}-accepted:{site}{rep}", what + " was accepted"))
             elif not same:
                 out.append((f"rejected-{op}-changed-state:{site}", what))
             continue
@@ -469,6 +473,14 @@ def oracle_c12(case: dict[str, Any], res: dict[str, Any]) -> list[tuple[str, str
                         out.append(("cancelled-watch-body-ran", what + f": active at tick {k + 1}"))
                         break
             elif cls == "EngineCommandNode" and item[1].split(":")[0] in ("Pause", "Hold"):
+                # only when this is the one Pause / Hold in flight (several requests of one internal command share
+                # a single resident instance: model M1's business)
+                kind = item[1].split(":")[0]
+                rl = r["before"]["runlog"]
+                others = [x for x in rl if x[1].split(":")[0] == kind and x[0] != item[0] and
+                          x[2] not in ("completed", "cancelled", "failed")] if isinstance(rl, list) else [1]
+                if others:
+                    continue
                 paused, holding = r["paused_after"]
                 if (item[1].startswith("Pause") and paused) or (item[1].startswith("Hold") and holding):
                     out.append(("cancelled-timed-pause-does-not-end", what))
